@@ -1,6 +1,7 @@
 """C11 - key-file life cycle: create once, never overwrite, refuse unusable keys."""
 import base64, os, random, shutil, stat, subprocess, tempfile
 from vlib.run import *
+from vlib import streams
 
 LINES = (b'{"t":{"$date":"2020-01-01T00:00:00.000+00:00"},"s":"I","c":"COMMAND","id":1,"ctx":"c","msg":"Slow query","attr":{"ns":"d.c","command":{"find":"c","filter":{"a":"secret one","b":"secret two"}}}}\n'
          b'{"t":{"$date":"2020-01-01T00:00:01.000+00:00"},"s":"I","c":"COMMAND","id":1,"ctx":"c","msg":"Slow query","attr":{"ns":"d.c","command":{"find":"c","filter":{"a":"secret one"}}}}\n')
@@ -169,6 +170,11 @@ def run(chk, replay=None):
         chk.violate('two generated keys are equal', {'n': len(keys_seen)}, tags=['rng'])
     chk.dist('generated_keys', len(keys_seen))
     chk.streams.append({'stream': 'CLI x 11 initial states x 1..3 runs, model run_key fed with the observed randomness', 'cases': chk.evaluations})
+    # the whole command (Model/Job.v: main.go's Run end to end) against the CLI on small worlds: exit status, file system and standard output
+    from vlib import joblib
+    jrng = random.Random(chk.seed * 7919 + 1111)
+    jpool = [l for l, _ in streams.grammar_lines(jrng, 25, 0.1) + streams.fixture_lines()[:8]]
+    joblib.correspondence(chk, jrng, 300 if chk.tier == 'thorough' else 120, jpool)
     chk.sample({'state': 'absent', 'runs': 3, 'expect': 'create once (0600, 64 bytes), reuse twice, identical ciphertext'}); chk.sample({'state': 'short', 'expect': 'exit 1, file untouched, no output'})
     chk.assumptions += ["the sandbox runs as root, for whom no file is unreadable: the Unreadable state is model-only", "pairwise distinctness of generated keys (CSPRNG quality) is sampled, not proved",
                         "the output file is created (empty) before the key step; 'no redacted output' means it holds no line"]
